@@ -145,8 +145,29 @@ def revalue(spec, rng):
             if isinstance(d["vals"][0], list):
                 vals = [[a, b] for a, b in zip(vals, gen.dyadics(rng, n, signed=True))]
             d["vals"] = vals
+        # hyper-parameters that do not change the output shape may differ between folded copies
+        if d["op"] == "clamp" and rng.random() < 0.7:
+            d["vmin"], d["vmax"] = rng.choice([(0.5, None), (None, 1.5), (0.25, 2.0), (-0.5, 0.75), (1.0, 3.0)])
+        if d["op"] == "scaled_sigmoid" and rng.random() < 0.7:
+            d["vmin"], d["vmax"] = rng.choice([(0.25, 2.5), (0.5, 1.0), (0.0, 4.0)])
+        if d["op"] in ("softmax", "log_softmax") and rng.random() < 0.7:
+            rank = rank_of(d["args"][0])
+            if rank:
+                ax = rng.randrange(rank)
+                d["axis"] = ax if rng.random() < 0.5 else ax - rank
+        if d["op"] == "index" and rng.random() < 0.7:
+            d["indices"] = [rng.randrange(max(d["indices"]) + 1) for _ in d["indices"]]
         for a in d.get("args", []):
             rec(a)
+
+    def rank_of(d):
+        # rank is preserved by every operator except the reductions
+        if d["op"] in ("tensor", "const"):
+            return len(d["shape"])
+        r = rank_of(d["args"][0])
+        if d["op"] in ("reduce_sum", "reduce_prod", "reduce_lse"):
+            return r - 1
+        return r
 
     rec(s["graph"])
     return s
